@@ -38,7 +38,13 @@ StepN(M, st) ==
       lostNow(p) == M0.prev[p].conn # 0 /\ (\E j \in 1..Len(out) : out[j].ev = "sock_close" /\ out[j].c = M0.prev[p].conn)
       lossT(p) == IF lostNow(p) THEN now ELSE M0.lossAt[p]
       \* (a DPR received in the very step in which the connection is lost - DPR and DPA in one read - counts)
-      dprNow(c) == feed /\ c = c0 /\ ~M0.gone[c0] /\ \E j \in 1..Len(ms) : IsDpr(ms[j]) /\ ms[j].oh # "" /\ (M0.rdy[c0] \/ \E k \in 1..(j - 1) : ms[k].cmd = "CE")
+      \* (... provided the connection is through its capabilities exchange by then: ready before, or the exchange SUCCEEDS earlier in the same read -
+      \*  a DPR behind a rejected or rejecting CEA is ignored by the node, and the loss is the rejection's, not the DPR's)
+      exchBy(j) == M0.rdy[c0]
+                   \/ (M0.dir[c0] = "out" /\ \E k \in 1..(j - 1) : ms[k].cmd = "CE" /\ ~ms[k].req /\ ms[k].rc = 2001 /\ ms[k].oh # "")
+                   \/ (M0.dir[c0] = "in" /\ (\E k \in 1..(j - 1) : ms[k].cmd = "CE" /\ ms[k].req) /\
+                        \E k \in 1..Len(out) : out[k].ev = "tx" /\ out[k].c = c0 /\ out[k].m.cmd = "CE" /\ ~out[k].m.req /\ out[k].m.rc = 2001)
+      dprNow(c) == feed /\ c = c0 /\ ~M0.gone[c0] /\ \E j \in 1..Len(ms) : IsDpr(ms[j]) /\ ms[j].oh # "" /\ exchBy(j)
       lossD(p) == IF lostNow(p) THEN (M0.dprd[M0.prev[p].conn] \/ dprNow(M0.prev[p].conn)) ELSE M0.lossDpr[p]
       okDial(p) ==
         /\ MCfg.peers[p].persistent
@@ -91,7 +97,7 @@ StepN(M, st) ==
                        !.cand = [c \in CIds |-> IF c = c0 /\ @[c] = "" /\ cerHost # "" THEN cerHost ELSE @[c]],
                        \* (a DPR / DPA ends service only on a connection through its capabilities exchange: before that it is ignored)
                        !.gone = [c \in CIds |-> @[c] \/ IsClosed(sn, c)
-                                               \/ (feed /\ c = c0 /\ \E j \in 1..Len(ms) : ms[j].cmd = "DP" /\ (M0.rdy[c] \/ \E k \in 1..(j - 1) : ms[k].cmd = "CE"))
+                                               \/ (feed /\ c = c0 /\ \E j \in 1..Len(ms) : ms[j].cmd = "DP" /\ exchBy(j))
                                                \/ (st.act.a \in {"peer_close", "peer_reset"} /\ st.act.c = c)]]
   IN [M2 EXCEPT !.rdy = [c \in CIds |-> @[c] \/ (M1.dir[c] = "in" /\ succIn(c)) \/ succOut(c)],
                 !.peer = [c \in CIds |-> IF M1.dir[c] = "in" /\ succIn(c) /\ @[c] = "" THEN M2.cand[c] ELSE @[c]]]
